@@ -30,3 +30,27 @@ package transpiler
 //@   flag checks=-index,-assert
 //@   at sql_select.Ge lower-date-covers-window-start: isDateCol(arg0) ==> fmtDay <= fdiv(ctx.From.UnixNano(), 86400000000000)
 //@   at sql_select.Le upper-date-covers-window-end: isDateCol(arg0) ==> fmtDay >= fdiv(ctx.To.UnixNano(), 86400000000000)
+
+// A Pyroscope label matcher: = and != compare the field with the value, =~ asks for
+// "match(field, value) == 1" and !~ for "match(field, value) != 1" - the negative
+// regex matcher selects exactly the series the positive one rejects.
+//@ func github.com/metrico/qryn/reader/utils/sql_select.NewCustomCol
+//@   modifies nothing
+//@ spec fn cmpWithOne(c sql.SQLCondition, op string) bool = typeis(c, "*sql.LogicalOp") && unbox(c, "*sql.LogicalOp").fn == op && len(unbox(c, "*sql.LogicalOp").clauses) == 2 && typeis(unbox(c, "*sql.LogicalOp").clauses[1], "*sql.RawObject") && unbox(unbox(c, "*sql.LogicalOp").clauses[1], "*sql.RawObject").val == "1"
+//@ spec fn cmpFieldVal(c sql.SQLCondition, op string, field sql.SQLObject, val sql.SQLObject) bool = typeis(c, "*sql.LogicalOp") && unbox(c, "*sql.LogicalOp").fn == op && len(unbox(c, "*sql.LogicalOp").clauses) == 2 && unbox(c, "*sql.LogicalOp").clauses[0] == field && unbox(c, "*sql.LogicalOp").clauses[1] == val
+//@ func (*StreamSelectorPlanner).getMatcherClause [C17]
+//@   flag checks=-index,-assert
+//@   modifies nothing
+//@   ensures equal: op == "=" ==> result1 == nil && cmpFieldVal(result0, "==", field, val)
+//@   ensures not-equal: op == "!=" ==> result1 == nil && cmpFieldVal(result0, "!=", field, val)
+//@   ensures matches: op == "=~" ==> result1 == nil && cmpWithOne(result0, "==")
+//@   ensures matches-not: op == "!~" ==> result1 == nil && cmpWithOne(result0, "!=")
+//@   ensures other-operators-rejected: op != "=" && op != "!=" && op != "=~" && op != "!~" ==> result1 != nil
+//@ func (*StreamSelectorPlanner).getMatcherClause$1 [C17]
+//@   flag checks=-index,-assert
+//@   modifies nothing
+//@   check regex-match-of-field-and-value: result1 == nil ==> result0 == "match(" + strField + ", " + strVal + ")"
+//@ func (*StreamSelectorPlanner).getMatcherClause$2 [C17]
+//@   flag checks=-index,-assert
+//@   modifies nothing
+//@   check regex-match-of-field-and-value: result1 == nil ==> result0 == "match(" + strField + ", " + strVal + ")"
